@@ -20,7 +20,7 @@ def key_fn(case, obs, verdict):
 def run(ctx):
     common.standard(
         ctx, harness="hC12", extracted="C12_model", driver_dir="C12",
-        rule=("non-trivial: instance_step cases with to > from; engine cases whose startup profile has at least 2 tokens; "
+        rule=("non-trivial: instance_step cases with to > from; engine cases whose startup profile has at least 2 tokens; wait cases with at least 2 tokens and a busy caller; "
               "distinct = distinct case lines"),
         key_fn=key_fn,
         translators=[("gofn-istep", "GoFnIstepGen.v")], bridge_files=["Gen/GoFnIstep_bridge.v"],
@@ -28,11 +28,13 @@ def run(ctx):
             "extraction: ExtrOcamlBasic only; OCaml driver ocaml/C12/main.ml + ocaml/common/conv.ml",
             "correspondence harness harness/cmd/hC12: real engine.Engine with a gun factory recording (InstanceID, bind instant), "
             "recording wrapper around the real startup schedule (token instants), cause flags (provider !ok, shared rps schedule end, "
-            "external cancel, injected creation failure: NewGun / gun.Bind / rps schedule factory); real schedule.NewInstanceStep drained from a known start instant",
+            "external cancel, injected creation failure: NewGun / gun.Bind / rps schedule factory); ammo items with nil / non-nil values or the real provider.Dummy; a first instance that is slow to create); real coreutil.Waiter under a busy caller (wait cases); real schedule.NewInstanceStep drained from a known start instant",
             "modelled, not verified: startup schedule = abstract token stream (C02); timers never fire early and the clock is monotone "
             "(Go runtime); which engine events cancel the start context (awaitRun, C05) is modelled by labelled cancel sources and "
             "observed by the harness; that a received creation failure of a later instance cancels the start context is the AAwait "
-            "step of Model/StartAsync.v, observed as run outcome != ok and no gun bound 100 ms after the failure",
+            "step of Model/StartAsync.v, observed as run outcome != ok and no gun bound 100 ms after the failure; that instance.Run reports out-of-ammo exactly on !ok "
+            "(is_out OnlyNotOk of Model/StartFire.v) is observed through nil-valued items / the dummy provider, re-read from source only by C03's bridge; "
+            "the loop's Wait section is proved equal to Model/Waiter.v wait wfixed, whose equality with waiter.go is C04's bridge",
         ],
         assumptions=["Go timers never fire before their deadline; time.Now is monotone",
                      "the startup schedule hands out its tokens in order (Next contract, C02)"],
